@@ -420,6 +420,10 @@ def check(ctx):
     with ctx.shared({"C03.R5": ("C06.R9", "the update and undo helpers operate on the table they are handed (the shadow table during a reload), never on "
                                 "the socket's live table")}):
         C03.r5(ctx)
+    from specs import C05
+    with ctx.shared({"C05.R6": ("C06.R10", "the socket asks for a full reload until one has completed: request_session_id is cleared only after the whole "
+                                "response was applied, so an interrupted reload is repeated as a reload (shadow table, swap) and not as an increment")}):
+        C05.r6(ctx, retsets)
     ctx.not_decided("reader-visible states inside user callbacks; equality of the new data set with the cache's set")
 
 
